@@ -39,7 +39,7 @@
 EXTENDS Naturals, Sequences, FiniteSets, TLC
 
 CONSTANTS Side, AutoClose, AutoPing, NRecv, RecvTimeout, CloseTimeout, Heartbeat, MaxTime,
-          TaskSet, PeerKinds, MaxPeer, MaxDrop, MaxCancel,
+          TaskSet, PeerKinds, MaxPeer, MaxDrop, MaxCancel, MaxLocalClose, MaxPause,
           FixRearm, FixShortcut, FixCwCancel, FixEofCode, MutNoFinally, MutNoWriterClosing
 
 VARIABLE s
@@ -57,7 +57,7 @@ IoEntry(f) == CASE f = "data" -> "io:data" [] f = "ping" -> "io:ping" [] f = "po
 IoFrameOf(e) == CASE e = "io:data" -> "data" [] e = "io:ping" -> "ping" [] e = "io:pong" -> "pong"
                   [] e = "io:close" -> "close" [] OTHER -> "bad"
 IoEntries == {"io:data", "io:ping", "io:pong", "io:close", "io:bad"}
-Stimuli == IoEntries \cup {"lost"}
+Stimuli == IoEntries \cup {"lost", "resume"}
 
 Init ==
   s = [ closed |-> FALSE, closing |-> FALSE, code |-> 0, waiting |-> FALSE,
@@ -74,6 +74,7 @@ Init ==
         res |-> [t \in Tasks |-> <<>>], nrecv |-> 0, cstart |-> NotIn,
         nPeer |-> 0, peerDone |-> FALSE, nDrop |-> 0, nCancel |-> 0,
         why |-> {}, gotClose |-> FALSE, sc |-> FALSE, cwc |-> FALSE, eo |-> FALSE,
+        paused |-> FALSE, dw |-> "none", nLocal |-> 0, nPause |-> 0,
         bdone |-> FALSE, bcb |-> FALSE, ocan |-> FALSE, berr |-> FALSE, bug |-> "none" ]
 
 (* ------------------------------------------------------------ small helpers *)
@@ -231,10 +232,18 @@ CTop(st0, t) ==
        IF s1.tclosing       \* writer.close(): send_frame raises; finally: writer._closing = True
        THEN CloseRet(CloseTransport(Why([s1 EXCEPT !.wclosing = TRUE, !.exc = TRUE, !.code = 1006], "senderr")), t, "True")
        ELSE LET s2 == [s1 EXCEPT !.wire = Append(@, "close"), !.wclosing = ~MutNoWriterClosing] IN
-            IF s2.waiting
-            THEN [Feed([s2 EXCEPT !.cw = "pending", !.cwTask = t], "closing")
-                     EXCEPT !.wk[t] = "none", !.pc[t] = "c.cw", !.cpu = "none"]
-            ELSE [s2 EXCEPT !.pc[t] = "c.acw"]
+            \* if drain: await writer.drain()  - suspends while the protocol is write-paused and still has a
+            \* transport (close(drain=False) is what receive() uses to answer the peer's Close frame)
+            IF s2.after[t] # "CLOSE" /\ s2.paused /\ ~s2.lost
+            THEN [s2 EXCEPT !.dw = t, !.wk[t] = "none", !.pc[t] = "c.drain", !.cpu = "none"]
+            ELSE [s2 EXCEPT !.pc[t] = "c.post"]
+
+\* the receive() hand-over of close(): break a blocked receive() with the CLOSING marker
+CPost(st, t) ==
+  IF st.waiting
+  THEN [Feed([st EXCEPT !.cw = "pending", !.cwTask = t], "closing")
+           EXCEPT !.wk[t] = "none", !.pc[t] = "c.cw", !.cpu = "none"]
+  ELSE [st EXCEPT !.pc[t] = "c.acw"]
 
 CAfterCw(st, t) ==
   IF st.closing /\ (~FixShortcut \/ st.gotClose)
@@ -317,6 +326,7 @@ Block(st, t) ==
   CASE st.pc[t] = "r.top"  -> RTop(st, t)
     [] st.pc[t] = "r.got"  -> RGot(st, t)
     [] st.pc[t] = "c.top"  -> CTop(st, t)
+    [] st.pc[t] = "c.post" -> CPost(st, t)
     [] st.pc[t] = "c.acw"  -> CAfterCw(st, t)
     [] st.pc[t] = "c.loop" -> ReadEnter(st, t, "c.read", "c.got")
     [] st.pc[t] = "c.got"  -> CGot(st, t)
@@ -351,6 +361,10 @@ Wake(st0, t, o) ==
          THEN IF FixCwCancel THEN CloseRaise(CloseTransport(Why([st EXCEPT !.code = 1006], "cancel")), t)
               ELSE CloseRaise(Why([st EXCEPT !.cwc = TRUE], "cancel"), t)
          ELSE [st EXCEPT !.pc[t] = "c.acw"]
+    [] st.pc[t] = "c.drain" ->    \* inside the first try block of close()
+         CASE o = "ok" -> [st EXCEPT !.pc[t] = "c.post"]
+           [] o = "cancel" -> CloseRaise(CloseTransport(Why([st EXCEPT !.code = 1006], "cancel")), t)
+           [] OTHER -> CloseRet(CloseTransport([st EXCEPT !.exc = TRUE, !.code = 1006]), t, "True")
     [] st.pc[t] = "c.read" ->
          CASE o = "ok" -> [st EXCEPT !.pc[t] = "c.got"]
            [] o = "cancel" ->
@@ -378,8 +392,10 @@ RunTask(st, t) ==
 DoCancel(st, t) ==
   IF st.pc[t] = "b.wait" /\ st.wk[t] = "none"       \* the outer shield future is cancelled; the inner task goes on
   THEN WakeTask([st EXCEPT !.ocan = TRUE, !.ready = Append(@, "odone")], t, "cancel")
-  ELSE IF st.pc[t] \in {"r.read", "c.read", "k.read", "c.cw", "k.cw"} /\ st.wk[t] = "none"
-  THEN LET s1 == IF st.pc[t] \in {"c.cw", "k.cw"} THEN [st EXCEPT !.cw = "cancelled"] ELSE st
+  ELSE IF st.pc[t] \in {"r.read", "c.read", "k.read", "c.cw", "k.cw", "c.drain"} /\ st.wk[t] = "none"
+  THEN LET s1 == IF st.pc[t] \in {"c.cw", "k.cw"} THEN [st EXCEPT !.cw = "cancelled"]
+                 ELSE IF st.pc[t] = "c.drain" THEN [st EXCEPT !.dw = "none"]     \* the drain waiter is done (cancelled)
+                 ELSE st
        IN WakeTask(s1, t, "cancel")
   ELSE [st EXCEPT !.mc[t] = TRUE]
 
@@ -415,10 +431,19 @@ IoFrame(st, f) ==
 \* BaseRequest._cancel (request payload), NOT WebSocketResponse._cancel, which nothing calls in this tree -
 \* and then _payload_parser.feed_eof(); the heartbeat is not cancelled.  Client: ResponseHandler.connection_lost
 \* calls _payload_parser.feed_eof() unless a protocol error already detached the parser.
+\* BaseProtocol.connection_lost first wakes a paused writer: set_result if the connection was closed by us
+\* (exc is None), ConnectionError("Connection lost") if it was cut.
+WakeDrain(st, o) ==
+  IF st.dw = "none" THEN st
+  ELSE IF st.wk[st.dw] = "none" THEN WakeTask([st EXCEPT !.dw = "none"], st.dw, o) ELSE [st EXCEPT !.dw = "none"]
 Lost(st) ==
   IF st.lost THEN st
-  ELSE LET s0 == [st EXCEPT !.lost = TRUE, !.tclosing = TRUE] IN
-       IF Side = "client" /\ s0.deaf THEN s0 ELSE FeedEof(s0)
+  ELSE LET s0 == [st EXCEPT !.lost = TRUE, !.tclosing = TRUE]
+           s1 == IF s0.paused THEN WakeDrain(s0, IF "drop" \in s0.why THEN "conn" ELSE "ok") ELSE s0 IN
+       IF Side = "client" /\ s1.deaf THEN s1 ELSE FeedEof(s1)
+
+\* resume_writing()
+Resume(st) == IF st.paused THEN WakeDrain([st EXCEPT !.paused = FALSE], "ok") ELSE st
 
 \* Timeout._on_timeout: task.cancel(); state = EXPIRING
 OnTimeout(st, t) == DoCancel([st EXCEPT !.tmo[t] = "fired"], t)
@@ -427,6 +452,7 @@ RunEntry(st, e) ==
   CASE e \in Tasks -> RunTask(st, e)
     [] e \in IoEntries -> IoFrame(st, IoFrameOf(e))
     [] e = "lost" -> Lost(st)
+    [] e = "resume" -> Resume(st)
     [] e \in {"tmoR", "tmoC", "tmoD", "tmoS"} -> OnTimeout(st, TmoTask(e))
     [] e = "hb" -> SendHeartbeat(st)
     [] e = "pong" -> PongNotReceived(st)
@@ -467,13 +493,28 @@ DropConnection ==
   /\ AtBoundary /\ s.nDrop < MaxDrop /\ ~s.tclosing
   /\ s' = Why([s EXCEPT !.nDrop = @ + 1, !.tclosing = TRUE, !.ready = Append(@, "lost")], "drop")
 
+\* the connection is torn down from our side by somebody else than the WebSocket object (client: session /
+\* connector / protocol close(); server: request.transport.close()): transport.close(), nothing else
+LocalClose ==
+  /\ s.nLocal < MaxLocalClose /\ ~s.tclosing
+  /\ s' = Why(CloseTransport([s EXCEPT !.nLocal = @ + 1]), "localclose")
+
+\* write back-pressure: the transport pauses the protocol (a write filled its buffer) and resumes it later
+\* (an I/O event).  Assumption: a pause does not span virtual time (Tick is disabled while paused).
+PauseWriting ==
+  /\ s.nPause < MaxPause /\ ~s.paused /\ ~s.tclosing
+  /\ s' = [s EXCEPT !.nPause = @ + 1, !.paused = TRUE]
+ResumeWriting ==
+  /\ AtBoundary /\ s.paused /\ ~InSeq(s.ready, "resume")
+  /\ s' = [s EXCEPT !.ready = Append(@, "resume")]
+
 \* virtual time: only when the loop is idle apart from network events arriving right now
 Perms(S) == {f \in [1..Cardinality(S) -> S] : \A i, j \in 1..Cardinality(S) : i # j => f[i] # f[j]}
 DueIds == {x.id : x \in {y \in s.timers : y.at <= s.now + 1}}
 AtOf(id) == (CHOOSE x \in s.timers : x.id = id).at
 \* ord = the order in which timers with the same deadline are queued (heap order: unspecified)
 Tick ==
-  /\ AtBoundary /\ s.now < MaxTime
+  /\ AtBoundary /\ s.now < MaxTime /\ ~s.paused
   /\ \A i \in 2..Len(s.ready) : s.ready[i] \in Stimuli
   /\ \E ord \in Perms(DueIds) :
         /\ \A i, j \in 1..Len(ord) : i < j => AtOf(ord[i]) <= AtOf(ord[j])
@@ -484,14 +525,14 @@ Next ==
   \/ \E e \in Entries : Step(e)
   \/ \E t \in Tasks : Spawn(t) \/ Cancel(t)
   \/ \E f \in PeerKinds : PeerFrame(f)
-  \/ DropConnection
+  \/ DropConnection \/ LocalClose \/ PauseWriting \/ ResumeWriting
   \/ Tick
 
 Spec == Init /\ [][Next]_s
 
 (* ------------------------------------------------------------ properties *)
 Count(sq, x) == Cardinality({i \in 1..Len(sq) : sq[i] = x})
-InCloseLocs == {"c.top", "c.cw", "c.acw", "c.loop", "c.read", "c.got",
+InCloseLocs == {"c.top", "c.drain", "c.post", "c.cw", "c.acw", "c.loop", "c.read", "c.got",
                 "k.top", "k.cw", "k.2", "k.loop", "k.read", "k.got"}
 NobodyInClose == \A t \in Tasks : s.pc[t] \notin InCloseLocs
 Idle == s.ready = <<Mark>> /\ s.cpu = "none"
@@ -504,7 +545,7 @@ ClosedClosesTransport == (s.closed /\ NobodyInClose) => (s.tclosing \/ s.lost)
 \* as coded: the one named exception (server close() cancelled while awaiting _close_wait)
 ClosedClosesTransportButCwCancel == (s.closed /\ NobodyInClose /\ ~s.cwc) => (s.tclosing \/ s.lost)
 
-Abnormal == {"drop", "timeout", "cancel", "pingpong", "proto", "senderr"}
+Abnormal == {"drop", "localclose", "timeout", "cancel", "pingpong", "proto", "senderr"}
 AllowedCodes ==
   (IF "peerclose" \in s.why THEN {PeerCode} ELSE {})
   \cup (IF s.why \cap Abnormal # {} THEN {1006} ELSE {})
@@ -515,10 +556,10 @@ CloseCodeRule == (s.closed /\ NobodyInClose) => s.code \in AllowedCodes
 CloseCodeRuleButShortcut == (s.closed /\ NobodyInClose /\ ~s.sc /\ ~s.cwc /\ ~s.eo) => s.code \in AllowedCodes
 
 ReceiveNotStuck ==
-  (Idle /\ s.timers = {}) =>
+  (Idle /\ s.timers = {} /\ ~s.paused) =>
      ~(s.pc["R"] = "r.read" /\ (s.closed \/ s.closing \/ s.lost \/ s.eof \/ s.qexc # "none"))
 CloserNotStuck ==
-  (Idle /\ s.timers = {}) => \A t \in Tasks : s.pc[t] \notin {"c.cw", "k.cw", "c.read", "k.read"}
+  (Idle /\ s.timers = {} /\ ~s.paused) => \A t \in Tasks : s.pc[t] \notin {"c.cw", "k.cw", "c.read", "k.read", "c.drain"}
 
 CloseBounded == s.cstart # NotIn => s.now <= s.cstart + CloseTimeout
 CloseWaitResolved == s.cw = "pending" => s.waiting
